@@ -1,17 +1,20 @@
-import GIV.Lemmas.CachePutConc
+import GIV.Lemmas.CachePutConcRestore
 /-!
 # C11 — concurrent cache users never observe corrupt or foreign data
 
-Same model as C12 (`GIV.Model.CachePut`): any number of processes and goroutines, every transition
-of `step` is one system call of one task; here no faults (`l.fault = .none`) and well-behaved source
-readers (`GoodSrc`).  `FSInvP` strengthens clause (D) of the invariant to "every data file is a
-PREFIX of the content with its hash".
+Same model as C12 (`GIV.Model.CachePut`): any number of processes and goroutines (`World.tasks`), every
+transition of `step` is ONE system call of ONE task, chosen by a label; an execution is any label
+sequence (`run`): all schedules.  Here no faults (`FaultFree`) and well-behaved source readers
+(`GoodOp`).  `FSInvP` strengthens clause (D) of the invariant to "every data file is a PREFIX of the
+content with its hash".  `WInv` is the invariant of the world: `FSInvP`, every index file is empty or a
+whole entry of a content stored for that id, outputs of stored contents are complete, every task's
+local facts (`LocalC`, `Extra`, `LocalG`: its descriptor is open on the file its program point says,
+writer offset ≤ file length, bytes still to copy are those of the content), descriptors of distinct
+tasks are distinct (they come from a fresh counter).  `winv_step` shows that every step of every task
+preserves it.
 
-Proved: the byte-level core (interleaved writers keep the file a prefix), the step of the moving
-writer, and non-interference (what any other well-behaved task does is monotone, and a writer's
-local facts survive monotone changes).  NOT mechanised: the assembly of these three over the task
-table of `World` (bookkeeping that descriptors of distinct tasks are distinct) — the full statements
-are the `…_statement` definitions at the end.
+AtomicSmallWrite: in the model every system call — in particular the single ≤175-byte write of an
+index entry and the read of it — is one transition.
 -/
 namespace GIV.C11
 open GIV GIV.CachePut
@@ -97,43 +100,120 @@ example : GoodSrc goodSrc ∧ LocalC toyP 1 goodSrc emptyFS .pStat ∧
 example : Mono emptyFS emptyFS none ∧ LocalC toyP 1 goodSrc emptyFS (.pOpen false) :=
   ⟨⟨fun _ _ h => h, fun _ _ h => by simp [emptyFS] at h, fun _ _ _ => rfl, Nat.le_refl _⟩, rfl⟩
 
-/-! ### the full statements (not yet assembled over the task table) -/
+/-! ### the world-level theorems -/
 
-/-- every task is at the start of a well-behaved operation. -/
-def GoodOp (offered : Bytes → Prop) : Op Id → Prop
-  | .put _ s => GoodSrc s ∧ offered s.data1
-  | _ => True
+/-- a start with two processes: a writer of id 1 and a reader of id 1. -/
+def w0 : World Nat Bytes :=
+  { fs := emptyFS,
+    tasks := fun t =>
+      if t = 0 then some ⟨0, false, some (.put 1 goodSrc, .pStat), []⟩
+      else if t = 1 then some ⟨1, false, some (.getBytes 1, .gOpen), [.getFile 1]⟩
+      else none,
+    now := 5, hist := [] }
 
-def Initial (offered : Bytes → Prop) (w : World Id Hsh) : Prop :=
-  ∀ tid tk, w.tasks tid = some tk →
-    (∀ op pc, tk.cur = some (op, pc) → GoodOp offered op ∧ startOp (Hsh := Hsh) op = .goto pc) ∧
-    (∀ op, op ∈ tk.todo → GoodOp offered op)
+theorem w0_initial : Initial toyOffered w0 := by
+  refine ⟨rfl, fun tid tk h => ?_⟩
+  simp only [w0] at h
+  split at h
+  · cases h
+    exact ⟨fun op ho => (by cases ho), fun op pc hc => (by cases hc; exact ⟨⟨⟨rfl, rfl, rfl⟩, Or.inr rfl⟩, rfl⟩)⟩
+  · split at h
+    · cases h
+      refine ⟨fun op ho => ?_, fun op pc hc => (by cases hc; exact ⟨trivial, rfl⟩)⟩
+      simp at ho; subst ho; trivial
+    · cases h
 
-/-- `concurrent_inv`: in every world reachable by fault-free steps of any number of processes and
-goroutines under any schedule, every data file is a prefix of the content with its hash and every
-index file is empty or a whole entry. -/
-def concurrent_inv_statement : Prop :=
-  ∀ (P : Params Id Hsh) (offered : Bytes → Prop), Hyps P offered →
-  ∀ (w0 w : World Id Hsh) (ls : List Label), FSInvP P offered w0.fs → Initial offered w0 →
-    (∀ l, l ∈ ls → l.fault = .none) → run P w0 ls = some w → FSInvP P offered w.fs
+/-- **Every fault-free step of any task of any process, under any schedule, preserves the invariant of
+the world** (the moving task: `concurrent_step_inv` and its analogues for the extra facts and for lookups;
+the other tasks: `concurrent_step_monotone` + `concurrent_frame`; descriptors stay distinct because a new
+one is the value of a counter that only grows). -/
+theorem concurrent_step_world (hy : Hyps P offered) {K0 K1 : Id → Bytes → Prop} {w w' : World Id Hsh} {l : Label}
+    {obs : Obs Id Hsh} (W : WInv P offered K0 K1 w) (h : step P w l = some (w', obs)) (hf : l.fault = .none) :
+    WInv P offered K0 K1 w' :=
+  winv_step hy W h hf
 
-/-- `lookup_returns_some_put`: a lookup that succeeds in such a world reports an entry whose index
-write was completed by a Put of that id (`Ev.indexed`), with the bytes of that Put. -/
-def lookup_returns_some_put_statement : Prop :=
-  ∀ (P : Params Id Hsh) (offered : Bytes → Prop), Hyps P offered →
-  ∀ (w0 w : World Id Hsh) (ls : List Label), FSInvP P offered w0.fs → Initial offered w0 → w0.hist = [] →
-    (∀ p, w0.fs.names p = none) →
-    (∀ l, l ∈ ls → l.fault = .none) → run P w0 ls = some w →
-    ∀ tid op d e, Ev.ret tid op (.bytes d e) ∈ w.hist →
-      ∃ t' , Ev.indexed t' op.id d ∈ w.hist ∧ e = ⟨P.H d, d.length⟩
+example : ∃ w' obs, step toyP w0 ⟨0, .none, 0⟩ = some (w', obs) := ⟨_, _, rfl⟩
 
-/-- `quiescent_all_readable`: when every task has finished, every id whose Put returned is readable. -/
-def quiescent_all_readable_statement : Prop :=
-  ∀ (P : Params Id Hsh) (offered : Bytes → Prop), Hyps P offered →
-  ∀ (w0 w : World Id Hsh) (ls : List Label), FSInvP P offered w0.fs → Initial offered w0 →
-    (∀ l, l ∈ ls → l.fault = .none) → run P w0 ls = some w → (∀ tid, w.finished tid = true) →
-    ∀ tid id s out size, Ev.ret tid (.put id s) (.putOk out size) ∈ w.hist →
-      ∃ c, offered c ∧ (∃ i nd, w.fs.names (.index id) = some i ∧ w.fs.inodes i = some nd ∧
-        P.parse id nd.data = some ⟨P.H c, c.length⟩) ∧ w.fs.content (.data (P.H c)) = some c
+/-- **concurrent_inv**: from any directory satisfying the prefix invariant, any number of processes and
+goroutines each running any sequence of well-behaved Put / Get / GetFile / GetBytes, any schedule: in
+every reachable world every data file is a prefix of the content with its hash and every index file is
+empty or a whole entry — no lookup can ever be shown corrupt or foreign bytes. -/
+theorem concurrent_inv (hy : Hyps P offered) {w0 w : World Id Hsh} {ls : List Label}
+    (hinv : FSInvP P offered w0.fs) (hi : Initial offered w0) (hf : FaultFree ls) (hr : run P w0 ls = some w) :
+    FSInvP P offered w.fs :=
+  concurrent_inv_fs hy hinv hi hf hr
+
+example : FSInvP toyP toyOffered w0.fs ∧ Initial toyOffered w0 ∧ FaultFree [⟨0, .none, 0⟩, ⟨1, .none, 0⟩] ∧
+    ∃ w, run toyP w0 [⟨0, .none, 0⟩, ⟨1, .none, 0⟩] = some w :=
+  ⟨emptyFS_invP, w0_initial, fun l hl => by simp at hl; rcases hl with rfl | rfl <;> rfl, _, rfl⟩
+
+/-- **lookup_returns_some_put**: every result reported by a lookup of `id` in such an execution — an
+entry (`Get`), a file (`GetFile`), bytes (`GetBytes`) — belongs to a content `c` that was stored for that
+very id, by a Put of this execution that had executed its index write (ghost event `indexed`) or before
+the execution started: the entry is `(H c, |c|)`, the file / the bytes are exactly `c`. -/
+theorem lookup_returns_some_put (hy : Hyps P offered) {w0 w : World Id Hsh} {ls : List Label}
+    (hinv : FSInvP P offered w0.fs) (hi : Initial offered w0) (hf : FaultFree ls) (hr : run P w0 ls = some w)
+    {tid : Nat} {op : Op Id} {res : Result Hsh} (hop : op.isGet = true) (hret : Ev.ret tid op res ∈ w.hist) :
+    let stored := fun c => InitialEntry P offered w0.fs op.id c ∨ ∃ t, Ev.indexed t op.id c ∈ w.hist
+    (∀ e, res = .entry e → ∃ c, stored c ∧ e = ⟨P.H c, c.length⟩) ∧
+    (∀ e cont, res = .file e cont → ∃ c, stored c ∧ e = ⟨P.H c, c.length⟩ ∧ cont = some c) ∧
+    (∀ d e, res = .bytes d e → stored d ∧ e = ⟨P.H d, d.length⟩) := by
+  have h := lookup_returns_stored hy hinv hi hf hr hop hret
+  refine ⟨fun e he => ?_, fun e cont he => ?_, fun d e he => ?_⟩
+  · subst he; obtain ⟨c, h1, _, h3⟩ := h; exact ⟨c, h1, h3⟩
+  · subst he; obtain ⟨c, h1, _, h3, h4⟩ := h; exact ⟨c, h1, h3, h4⟩
+  · subst he; exact ⟨h.1, h.2.2⟩
+
+example : (Op.getBytes 1 : Op Nat).isGet = true := rfl
+
+/-- **quiescent_all_readable**: from an empty cache; at any point after a Put of `id` returned nil — in
+particular once all writers have finished — the index file of `id` holds a whole entry that parses to
+`(H c, |c|)` for a content `c` stored for this id by a Put of the execution, and the output file of `c` is
+completely there: `id` is readable (nobody truncates or removes on fault-free runs). -/
+theorem quiescent_all_readable (hy : Hyps P offered) {w0 w : World Id Hsh} {ls : List Label}
+    (hempty : ∀ p, w0.fs.names p = none) (hst : ∀ i, w0.fs.inodes i = none) (hi : Initial offered w0)
+    (hf : FaultFree ls) (hr : run P w0 ls = some w)
+    {tid : Nat} {id : Id} {s : Src} {out : Hsh} {size : Nat}
+    (hret : Ev.ret tid (.put id s) (.putOk out size) ∈ w.hist) :
+    ∃ c t t', Ev.indexed t' id c ∈ w.hist ∧ offered c ∧
+      w.fs.content (.index id) = some (P.enc id (P.H c) c.length t) ∧
+      P.parse id (P.enc id (P.H c) c.length t) = some ⟨P.H c, c.length⟩ ∧
+      w.fs.content (.data (P.H c)) = some c := by
+  have hinv : FSInvP P offered w0.fs :=
+    ⟨⟨fun p i h => (by rw [hempty] at h; cases h), fun i nd h => (by rw [hst] at h; cases h)⟩,
+     fun p i nd _ h => (by rw [hempty] at h; cases h)⟩
+  have W0 : WInv P offered (fun _ _ => False) (fun _ _ => False) w0 :=
+    winv_init hinv hi (fun id d hd => by simp [FS.content, FS.file?, hempty] at hd) (fun _ _ h => h.elim)
+  obtain ⟨c, t, hk, hc, h1, h2, h3⟩ := put_ok_readable hy W0 hf hr hret
+  rcases hk with hk | ⟨t', ht'⟩
+  · exact hk.elim
+  · exact ⟨c, t, t', ht', hc, h1, h2, h3⟩
+
+example : (∀ p, w0.fs.names p = none) ∧ (∀ i, w0.fs.inodes i = none) := ⟨fun _ => rfl, fun _ => rfl⟩
+
+/-- **restore_invisible**: `id0` is stored with the complete content `c0`; any number of tasks store `c0`
+again for `id0` (and do anything else with other ids), under any schedule.  Then every lookup of `id0`
+succeeds — never a miss — and reports `c0`: the entry `(H c0, |c0|)`, a file holding `c0`, the bytes `c0`.
+(Write first, truncate after, same length: the index entry is never absent or short; with
+AtomicSmallWrite a reader sees the old or the new entry, both naming `c0`.) -/
+theorem restore_invisible (hy : Hyps P offered) {id0 : Id} {c0 : Bytes} (hc0 : offered c0) {w0 w : World Id Hsh}
+    {ls : List Label} (hinv : FSInvP P offered w0.fs) (hi : Initial offered w0)
+    (hidx : IndexIs P id0 c0 w0.fs) (hcomp : CompleteF P w0.fs c0)
+    (honly : ∀ tid tk, w0.tasks tid = some tk →
+      (∀ op, op ∈ tk.todo → OnlyC0 id0 c0 op) ∧ (∀ op pc, tk.cur = some (op, pc) → OnlyC0 id0 c0 op))
+    (hf : FaultFree ls) (hr : run P w0 ls = some w)
+    {tid : Nat} {op : Op Id} {res : Result Hsh} (hop : op.isGet = true) (hid : op.id = id0)
+    (hret : Ev.ret tid op res ∈ w.hist) :
+    res = .entry ⟨P.H c0, c0.length⟩ ∨ res = .file ⟨P.H c0, c0.length⟩ (some c0) ∨
+      res = .bytes c0 ⟨P.H c0, c0.length⟩ := by
+  have h := restore_invisible_run hy hc0 hinv hi hidx hcomp honly hf hr hop hid hret
+  cases res <;> simp only [ResS, E0] at h
+  case entry e => exact Or.inl (by rw [h])
+  case file e cont => exact Or.inr (Or.inl (by rw [h.1, h.2]))
+  case bytes d e => exact Or.inr (Or.inr (by rw [h.1, h.2]))
+  all_goals exact h.elim
+
+example : OnlyC0 (1 : Nat) [8, 9, 10] (.put 1 goodSrc) ∧ OnlyC0 (1 : Nat) [8, 9, 10] (.getBytes 1) :=
+  ⟨fun _ => rfl, trivial⟩
 
 end GIV.C11
